@@ -1501,6 +1501,12 @@ Definition resp_is_http10 (r : response) : bool := rs_version r =? 0.
 Definition resp_headers_nonempty (r : response) : bool := match rs_headers r with [] => false | _ => true end.
 Definition resp_get_content_length (r : response) : option bytes := hm_get (rs_headers r) (s2b "content-length").
 Definition resp_text_lookup (r : response) : bytes -> option bytes := lookup_text (rs_headers r).
+(* AmendedRequest::set_header on the list of added headers: the model's am_set_header (validated name and value, lower-cased name,
+   the ArrayVec's capacity) *)
+Definition set_header_list (added : list header) (k v : bytes) : res (list header * unit) :=
+  if negb (valid_header_name k && valid_header_value v) then Err BadHeader
+  else if MAX_EXTRA_HEADERS <=? len added then Panic "util.rs: ArrayVec::push (extra headers)"
+  else Ok (added ++ [(lower k, v)], tt).
 """
 
 
@@ -1722,6 +1728,21 @@ FLOWFUNCS = [
          params=[("writer", "recmut:BodyWriter", "", None), ("is_prelude", "val", "bool", None), ("is_body", "val", "bool", None),
                  ("prelude_result", "val", "res unit", "res"), ("input", "val", "bytes", None), ("w", "writer", "", None)],
          rust_ret="Result<(usize, usize), Error>"),
+    # src/client/call.rs: Call::analyze_request -- runs once; inserts Host from the URI and the body framing header when the caller gave
+    # none; installs the body writer the analysis chose.  The analysis itself (gen_analyze) is a value here, AmendedRequest::set_header
+    # is the model's reading of it on the list of added headers (name lower-cased and validated, capacity of the ArrayVec), the URI's
+    # host is a value (a valid header value by construction of http::Uri).
+    dict(coq="gen_call_analyze_request", file="src/client/call.rs", impl=r"impl<State, B>\s+Call<State,\s*B>", rust="analyze_request",
+         subst=[(r"self\s*\.request\s*\.analyze\(self\.state\.writer, self\.state\.skip_method_body_check\)", "analyze_result"),
+                (r"let info = analyze_result\?;", "let (info_body_mode, info_req_host_header, info_req_body_header) = analyze_result?;"),
+                (r"info\.", "info_"), (r"self\.request\.uri\(\)\.host\(\)", "uri_host"),
+                (r"HeaderValue::from_str\(host\)\s*\.map_err\(\|e\| Error::BadHeader\(e\.to_string\(\)\)\)\?", "host"),
+                (r"self\.request\.set_header\(", "set_header(&mut added, "), (r"self\.state\.writer", "cur_writer"), (r"self\.analyzed", "analyzed")],
+         params=[("analyzed", "mutval", "bool", None), ("added", "mutval", "list header", None), ("cur_writer", "mutval", "writer", None),
+                 ("analyze_result", "val", "res (writer * bool * bool)", "res"), ("uri_host", "val", "option bytes", None)],
+         known_res=[("body_header", "body_header", 1)], known_state=[("set_header", "set_header_list")],
+         methods={"has_body": "has_body"},
+         rust_ret="Result<(), Error>"),
     # src/client/call.rs: the resumable request-head writer. The request is represented by what the writer asks of it: the three pieces
     # of the request line (Display of Method, the path, Debug of Version -- byte strings rendered by the caller) and the list of effective
     # headers (name, value).  state.phase is the one field of BodyState it touches.
@@ -1809,6 +1830,9 @@ def translate_custom(text, cfg, known_all=None):
     known = dict(((None, n), FnInfo(n, [("r", "val", "")], "plain")) for n in cfg.get("known", []))
     for rust, coq, arity in cfg.get("known_res", []):
         known[(None, rust)] = FnInfo(coq, [("a%d" % i, "val", "") for i in range(arity)], "res")
+    for rust, coq in cfg.get("known_state", []):
+        # a modelled operation on a list held in a mutable parameter: f(&mut list, key, value) -> Result<(), Error>
+        known[(None, rust)] = FnInfo(coq, [("l", "mutval", ""), ("k", "val", ""), ("v", "val", "")], "res")
     if known_all:
         for key, fi in known_all.items():
             known.setdefault(key, fi)
